@@ -32,6 +32,7 @@ class H(Harness):
         try:
             from harness import compart
             out += compart.c05_cases(rnd, max(20, n // 5))
+            out += [compart.gen_case(rnd) for _ in range(max(20, n // 5))]
         except ImportError:
             pass
         return out
